@@ -36,7 +36,8 @@ from embit.liquid.transaction import LTransaction, LTransactionInput, LTransacti
 from embit.util import secp256k1 as real_secp
 
 PROP = "C18"
-MODS = ["EmbitModel.Props.C18", "EmbitModel.Props.C18X", "EmbitModel.Props.C18Y", "EmbitModel.Props.C18Z"]
+MODS = ["EmbitModel.Props.C18", "EmbitModel.Props.C18X", "EmbitModel.Props.C18Y", "EmbitModel.Props.C18Z",
+        "EmbitModel.Props.C18W"]
 
 
 # ================================================================ A. transaction codec
@@ -167,12 +168,9 @@ def check_pset_lossless(c, b, p, kind):
     try:
         out = p.serialize()
     except Exception as e:
-        # Proved (C18X.pset_v2_reserialise, C18Z.pset_v0_reserialise): whatever PSET.parse accepts can be written again,
-        # except a version-0 PSET whose input scope holds PSETv2 issuance fields of its own (arbitrary bytes that the
-        # transaction writer may refuse). Outside that region a failure of serialize() is a violation, not a skip.
-        if p.version != 2 and any(own_iss):
-            c.tally("pset:unserialisable-v0-own-issuance")
-            return
+        # Proved (C18X.pset_v2_reserialise, C18Z.pset_v0_reserialise): whatever PSET.parse accepts can be written again
+        # (proved away from version-0 input scopes with issuance fields of their own; since fix c18-kf1 these fields are
+        # validated when read, so that region is no longer excused here: any failure of serialize() is a violation).
         c.fail("accepted PSET cannot be re-serialised (%s)" % type(e).__name__,
                {"op": "pset.lossless", "kind": kind, "bytes": hx(b)[:20000]})
         return
@@ -242,37 +240,49 @@ def check_pset_lossless(c, b, p, kind):
             c.expect("ltx.wire " + gl.ltx_tokens(p.tx), "ok " + hx(g), {"kind": kind, "bytes": hx(b)[:20000]})
     p2 = impl_pset_parse(out)
     if p2 is None or p2.serialize() != out:
-        # (known finding C18-KF1, classifier below: only a version-0 PSET whose input scope holds MALFORMED issuance
-        # fields of its own is excused; this check used to be skipped for every PSET with such fields)
+        # (the former known finding C18-KF1 - malformed issuance fields of an input scope - is fixed: nothing is excused)
         c.fail("PSET: serialise-then-parse is not the identity", dict(rec, sub="ser-parse-identity"))
     elif g is not None and any(own_iss):
         c.tally("pset:v0-own-issuance-roundtrips")
 
 
-def _malformed_own_issuance(i):
-    """input scope with issuance fields of its own that `LInputScope.asset_issuance` copies into the transaction although
-    no Elements transaction can hold them: a commitment that is not 33 bytes with prefix 08/09, a nonce / entropy that
-    is not 32 bytes"""
-    if not (i.issue_value or i.issue_commitment):
-        return False
+def check_issuance_fields_refused(c, kind, b, p):
+    """region of the former known finding C18-KF1 (fixed by fixes/c18-kf1.diff; C18W.pset_parse_issuance_fields_shape,
+    input_scope_malformed_commitment_refused / _nonce_refused): a PSET with an input scope that holds a malformed
+    `pset 01` / `pset 0b` commitment or `pset 0c` / `pset 0d` nonce / entropy must be REFUSED at parse time. Checked on the
+    raw pairs (independent framing walk) and on the object embit returned."""
+    bad = None
+    try:
+        scopes = gl.split_scopes(b)
+        for si in range(1, 1 + len(p.inputs)):
+            for k, v in scopes[si]:
+                if gl.malformed_issuance_value(k, v):
+                    bad = (si, hx(k), hx(v)[:200])
+    except Exception:
+        pass
+    for n, i in enumerate(p.inputs):
+        for x in (i.issue_commitment, i.token_commitment):
+            if x is not None and (len(x) != 33 or x[0] not in (8, 9)):
+                bad = bad or (n + 1, "commitment", hx(x)[:200])
+        for x in (i.issue_nonce, i.issue_entropy):
+            if x is not None and len(x) != 32:
+                bad = bad or (n + 1, "nonce/entropy", hx(x)[:200])
+    if bad is not None:
+        c.fail("PSET accepted although an input scope holds a malformed issuance field (C18-KF1 region)",
+               {"op": "pset.issuance-fields", "kind": kind, "bytes": hx(b)[:20000], "field": list(bad)})
+    c.tally("pset:issuance-fields-wellformed")
 
-    def bad_commit(x):
-        return bool(x) and (len(x) != 33 or x[0] not in (8, 9))
 
-    def bad32(x):
-        return bool(x) and len(x) != 32
-    return bad_commit(i.issue_commitment) or bad_commit(i.token_commitment) or bad32(i.issue_nonce) or bad32(i.issue_entropy)
-
-
-def v0_own_issuance_malformed(rec):
-    """classifier of known finding C18-KF1 — as narrow as possible: the serialise-then-parse check, on a version-0 PSET,
-    at least one input scope with malformed issuance fields of its own, and the written global transaction is the
-    thing embit cannot read back"""
+def v0_own_issuance_null_index(rec):
+    """classifier of known finding C18-KF2 - as narrow as possible: the serialise-then-parse check, on a version-0 PSET,
+    with an input that is a peg-in (flag of the global transaction) at output index 2^30 - 1 and builds an issuance from
+    fields of its own: index + both flags is 0xffffffff, the null index, so the written transaction cannot be read back"""
     if rec.get("op") != "pset.lossless" or rec.get("sub") != "ser-parse-identity":
         return False
     try:
         p = PSET.parse(bytes.fromhex(rec["bytes"]))
-        if p.version == 2 or not any(_malformed_own_issuance(i) for i in p.inputs):
+        if p.version == 2 or not any(bool(i.issue_value or i.issue_commitment) and i.is_pegin and i.vout == 2**30 - 1
+                                     and i._tx_issuance is None for i in p.inputs):
             return False
         g = dict(gl.split_scopes(p.serialize())[0]).get(b"\x00")
         try:
@@ -304,6 +314,7 @@ def check_pset_bytes(c, kind, b, lossless=True):
         except Exception:
             tx = "err"
         c.expect("pset.tx " + hx(b), tx, info, proven=False)
+        check_issuance_fields_refused(c, kind, b, p)
         if lossless:
             check_pset_lossless(c, b, p, kind)
 
@@ -360,7 +371,8 @@ def v0_full(rng):
         if rng.random() < 0.12:
             m.append((gl.IN_KEYS["issue_value"][0], rng.choice([0, 9, 2**64 - 1]).to_bytes(8, "little")))
         if rng.random() < 0.08:
-            m.append((gl.IN_KEYS["issue_commitment"][0], rng.choice([b"", bytes([8]) + gen.rbytes(rng, 32), gen.rbytes(rng, 5)])))
+            m.append((gl.IN_KEYS["issue_commitment"][0], rng.choice([b"", bytes([8]) + gen.rbytes(rng, 32), bytes([9]) + gen.rbytes(rng, 32),
+                                                                      bytes([8]) + gen.rbytes(rng, 32), gen.rbytes(rng, 5)])))
         rng.shuffle(m)
         in_maps.append(m)
     out_maps = [gl.gen_out_pairs(rng, 0, True) for _ in vout]
@@ -984,6 +996,9 @@ def corpus(c):
                 check_ltx_bytes(c, "corpus:" + e.get("kind", ""), b)
             elif e["op"] == "pset.parse":
                 check_pset_bytes(c, "corpus:" + e.get("kind", ""), b)
+                if e.get("kind", "").startswith("KF1") and impl_pset_parse(b) is not None:
+                    c.fail("witness of the fixed finding C18-KF1 (malformed own issuance fields) is accepted again",
+                           {"op": "pset.issuance-fields", "kind": "corpus:" + e.get("kind", ""), "bytes": hx(b)[:20000]})
             elif e["op"] == "verify-zero-value":
                 # D26 witness: a blinded output whose stated value is replaced by 0 must not verify
                 q = PSET.parse(b)
@@ -1023,7 +1038,7 @@ def run(tier, seed):
         "checked against the library directly, not through verify()",
     ]
     c.build_and_audit()
-    c.classifiers["v0_own_issuance_malformed"] = v0_own_issuance_malformed
+    c.classifiers["v0_own_issuance_null_index"] = v0_own_issuance_null_index
     corpus(c)
     if tier == "quick":
         explore_ltx(c, 150, True, 24)
